@@ -431,6 +431,19 @@ func parentMain() {
 		chunks = []chunk{{id, id + 1}}
 		run.Distinct("replay")
 		run.Distinct(fmt.Sprintf("replay of case %d", id))
+	} else if rg := os.Getenv("VERIF_C14_RANGE"); rg != "" {
+		// development aid: run the cases [from,to) only
+		var from, to int64
+		if _, err := fmt.Sscanf(rg, "%d:%d", &from, &to); err != nil {
+			run.Fatal(err)
+		}
+		for s := from; s < to; s += 8 {
+			e := s + 8
+			if e > to {
+				e = to
+			}
+			chunks = append(chunks, chunk{s, e})
+		}
 	} else {
 		// End-to-end families first (never the ones cut by the budget), their
 		// chunks in a fixed stride order and round-robin across families, so
